@@ -50,6 +50,7 @@ class Outcome:
         self.model_mismatches: list[dict] = []
         self.judged = 0
         self.out_of_model = 0
+        self.spec_errors = 0
         self.kfs = load_known_findings()  # a finding may surface in any check whose programs reach its trigger
 
     # -- known findings
@@ -97,6 +98,12 @@ class Outcome:
             self.coverage["out_of_model"] = self.out_of_model
             if self.out_of_model > 0.05 * max(1, self.judged):
                 self.machinery(f"{self.out_of_model} of {self.judged} cases left the 32-bit-safe range of the specification")
+        if self.spec_errors:
+            self.coverage["spec_errors"] = self.spec_errors
+            self.notes.append(f"{self.spec_errors} trace(s) on which TLC failed to evaluate the specification were not judged "
+                              f"(kept under replays/_spec_errors)")
+            if self.spec_errors > max(1, 0.01 * max(1, self.judged)):
+                self.machinery(f"{self.spec_errors} of {self.judged} traces: TLC failed to evaluate the specification")
         ev = {
             "property_id": self.prop,
             "tier": self.tier,
@@ -178,6 +185,17 @@ def validate_traces(out: Outcome, spec: str, cfg: str, clauses: list[str], items
             if clause == "out_of_model":
                 counts[clause] += 1
                 out.out_of_model += 1
+                continue
+            if clause == "spec_error":
+                # TLC itself failed while evaluating the specification on this trace (isolated by bisection): says
+                # nothing about the code; kept for repair of the specification, a rate above 1% is a machinery error
+                counts[clause] += 1
+                out.spec_errors += 1
+                os.makedirs(os.path.join(REPLAYS, "_spec_errors"), exist_ok=True)
+                blob = json.dumps(it["prog"], sort_keys=True)
+                with open(os.path.join(REPLAYS, "_spec_errors", hashlib.sha1(blob.encode()).hexdigest()[:12] + ".json"), "w") as f:
+                    json.dump({"property": out.prop, "program": it["prog"], "trace": it["trace"],
+                               "tlc": next((e["tlc"] for e in tlc.SPEC_ERRORS if e["trace"] == it["trace"]), "")}, f, indent=1)
                 continue
             if clause.startswith("np_model_mismatch"):
                 # the specification's model of NumPy itself disagrees with the NumPy twin on this trace: the trace
